@@ -70,7 +70,7 @@ impl Property for C20 {
         ["history/len-0", "history/len-4", "history/with-failure", "target/min_utxo", "target/index-beyond-previous-outputs", "target/min_utxo+dropped-optional-output", "target/tight-balance", "outcome/ok", "state/latest_tx_body-set"].iter().map(|s| s.to_string()).collect()
     }
     fn run_case(&self, ctx: &mut Ctx, phase: &str, idx: u64, rng: &mut Rng) {
-        let pp = PP { mainnet: rng.bool(), a: *rng.pick(&[44u64, 1, 100, 0]), b: *rng.pick(&[155_381u64, 0]), coins_per_utxo_byte: if rng.chance(1, 3) { rng.range(1, 40_000) as u64 } else { *rng.pick(&[4310u64, 1, 34482, 289, 290, 291]) }, extra_fees: *rng.pick(&[None, Some(0), Some(123_456)]), cost_models: vec![0, 1, 2] };
+        let pp = PP { mainnet: rng.bool(), a: *rng.pick(&[44u64, 1, 100, 0]), b: *rng.pick(&[155_381u64, 0]), coins_per_utxo_byte: if rng.chance(1, 3) { rng.range(1, 40_000) as u64 } else { *rng.pick(&[4310u64, 1, 34482, 289, 290, 291]) }, extra_fees: *rng.pick(&[None, Some(0), Some(123_456)]), cost_models: vec![0, 1, 2], cost_salt: 0 };
         let hlen = rng.usize(5);
         ctx.count(&format!("history/len-{hlen}"));
         let mut used = env::compiler(&pp);
